@@ -1,6 +1,39 @@
 use dv::engine::*;
 use dv::props::sync::*;
+use dv::syncworld::{Action, Op};
+use proptest::prelude::*;
 use proptest::strategy::BoxedStrategy;
+
+/// a history that starts with the same-millisecond clash of the quantifier: two rows created on peer 0 and
+/// pulled by peer 1, then one peer sets a reference of row 0 and the other peer updates row 0 in the same
+/// millisecond; the generated history follows (seeded change C03-edges-requested-strictly-after-held-version)
+fn clash_strategy(max_ops: usize, max_peers: u8) -> BoxedStrategy<SyncCase> {
+    (case_strategy(max_ops, max_peers, false), 0u8..2, any::<bool>(), 0u8..14, 0u8..3)
+        .prop_map(|(mut case, a, link, value, pull)| {
+            let b = 1 - a;
+            let mut ops = vec![
+                Op::Write { peer: 0, dt: 5, action: Action::Create { entity: 0, room: 0, text: 1, parent: None } },
+                Op::Write { peer: 0, dt: 5, action: Action::Create { entity: 0, room: 0, text: 2, parent: None } },
+                Op::Sync { puller: 1, server: 0 },
+                Op::Tick { ms: 50 },
+                Op::Write {
+                    peer: a,
+                    dt: 3,
+                    action: if link { Action::AddLink { row: 0, target: 40000 } } else { Action::SetParent { row: 0, target: Some(40000) } },
+                },
+                Op::Write { peer: b, dt: 0, action: Action::Update { row: 0, value } },
+            ];
+            match pull {
+                0 => ops.push(Op::Sync { puller: b, server: a }),
+                1 => ops.push(Op::Sync { puller: a, server: b }),
+                _ => {}
+            }
+            ops.append(&mut case.ops);
+            case.ops = ops;
+            case
+        })
+        .boxed()
+}
 
 struct C03;
 impl Property for C03 {
@@ -8,14 +41,14 @@ impl Property for C03 {
     const ID: &'static str = "C03";
     fn plan(tier: Tier) -> Plan {
         match tier {
-            Tier::Quick => Plan { shards: 16, cases_per_shard: 80, max_shrink_iters: 200 },
+            Tier::Quick => Plan { shards: 16, cases_per_shard: 100, max_shrink_iters: 200 },
             Tier::Thorough => Plan { shards: 16, cases_per_shard: 2500, max_shrink_iters: 400 },
         }
     }
     fn strategy(tier: Tier) -> BoxedStrategy<SyncCase> {
         match tier {
-            Tier::Quick => case_strategy(40, 3, false),
-            Tier::Thorough => case_strategy(70, 4, false),
+            Tier::Quick => prop_oneof![4 => case_strategy(40, 3, false), 1 => clash_strategy(30, 3)].boxed(),
+            Tier::Thorough => prop_oneof![6 => case_strategy(70, 4, false), 1 => clash_strategy(60, 4)].boxed(),
         }
     }
     fn run(case: &SyncCase, ctx: &RunCtx) -> Outcome {
